@@ -310,6 +310,24 @@ func visitInstr(fr *frame, instr ssa.Instruction) continuation {
 		*addr = zero(mustDeref(instr.Type()))
 
 	case *ssa.MakeSlice:
+		// symbolic sizes: first decide whether the Go runtime would panic
+		// (negative, or beyond the maximum allocation), then enumerate the rest
+		for _, sz := range []value{fr.get(instr.Cap), fr.get(instr.Len)} {
+			if sv, ok := sz.(*Sym); ok {
+				_, sgn := kindBits(sv.Kind)
+				t := mkResize(sv.T, 64, sgn)
+				bad := mkOr(mkCmp(opBvSLt, t, mkBV(0, 64)), mkCmp(opBvSLt, mkBV(uint64(1)<<47, 64), t))
+				if fr.i.run.branch(bad) {
+					panic("runtime error: makeslice: cap out of range")
+				}
+				// a size the client controls and that is not bounded by anything small is an
+				// unbounded allocation: reported like a crash (fatal out-of-memory risk)
+				huge := mkCmp(opBvSLt, mkBV(uint64(1)<<32, 64), t)
+				if fr.i.run.branch(huge) {
+					panic("runtime error: makeslice: allocation of more than 4 GiB requested by the input")
+				}
+			}
+		}
 		capv := concInt(fr, fr.get(instr.Cap), "make cap")
 		lenv := concInt(fr, fr.get(instr.Len), "make len")
 		if lenv < 0 || capv < lenv {
